@@ -24,6 +24,25 @@ def observe(d, order, lang="yaql"):
     spec_dict["tasks"] = {t: spec_dict["tasks"][t] for t in order}
     spec = native_specs.WorkflowSpec(copy.deepcopy(spec_dict))
     g = composer.WorkflowComposer.compose(spec)
+    return observe_graph(g, d, order, lang)
+
+
+def conducted_graph(d, lang="yaql", max_steps=40):
+    """the graph a conductor holds after it has conducted a history in which every action fails as long as it may
+    (retries are exhausted, failure transitions are taken): conducting must leave the composed graph alone"""
+    r = X.Real(d, lang=lang, tok="task")
+    X.apply_choice(r, ["boot"], False)
+    for _ in range(max_steps):
+        chs = r.report_choices()
+        if not chs or len(r.acts) > 12:          # (splits in cycles multiply the executions: a short history is enough)
+            break
+        bad = [c for c in chs if c[3] == "failed"]
+        X.apply_choice(r, ["rep"] + (bad[0] if bad else chs[0]), False)
+    return observe_graph(r.c.graph, d, list(d["tasks"]), lang)
+
+
+def observe_graph(g, d, order, lang="yaql"):
+    from orquesta import graphing
     # criteria string -> abstract condition
     inv = {}
     for t, td in d["tasks"].items():
@@ -86,6 +105,11 @@ def _job(job):
         else:
             chosen = perms
         ms = [{"role": "perm", "fin": observe(d, order, lang), "sched": list(order)} for order in chosen]
+        if any(t["retry"]["on"] or D.RETRY_CMD in [x for n in t["next"] for x in n["do"]] for t in d["tasks"].values()):
+            try:            # the node attributes a conductor works with (retry policies) must stay as composed
+                ms.append({"role": "conducted", "fin": conducted_graph(d, lang, 20), "sched": []})
+            except Exception:
+                pass        # (a definition the driver cannot conduct contributes its composed graphs only)
         return {"kind": "graph", "def": X.tla_def(d), "members": ms, "replay": {"def": d, "lang": lang}}
     except Exception as e:
         import traceback
